@@ -8,7 +8,7 @@
    It is refuted by four witnesses (the C22_refuted theorems); what holds instead is the
    C22_partial theorems below.  This file contains only the property theorems. *)
 From Coq Require Import List String.
-From Verif Require Import Calcium.Refs Calcium.RefsProofs.
+From Verif Require Import Calcium.Refs Calcium.RefsProofs Calcium.RefsIsolation.
 Import ListNotations.
 Local Open Scope string_scope.
 
@@ -85,3 +85,37 @@ Theorem C22_partial_single_fault : forall w a fl sched w' ts' tr',
   ref_ok w' = true \/ fault_removenode_plugin tr' = true \/ addnode_rollback_failed tr' = true.
 Proof. exact single_fault_partial. Qed.
 Print Assumptions C22_partial_single_fault.
+
+(* UNBOUNDED partial theorems: for ALL worlds satisfying Ref (any pods, nodes,
+   records, workloads, any names) the pod / node operations run in isolation
+   preserve Ref; AddNode and RemoveNode do so under every placement of a single
+   injected failure, except when the failure hits AddNode's own compensation
+   (fault index 2 or 3 = the plugin removal after a failed store step) or
+   RemoveNode's plugin removal (index 3, witness 3).  [RefP] is the Prop form of
+   ref_ok (C22_ref_reflect); [run1] runs one thread alone (= run_sched with the
+   constant schedule, RefsIsolation.run1_sched). *)
+Theorem C22_ref_reflect : forall w, ref_ok w = true <-> RefP w.
+Proof. exact ref_ok_RefP. Qed.
+Print Assumptions C22_ref_reflect.
+
+Theorem C22_isolation_add_pod : forall w p, RefP w ->
+  let '(w', t') := run1 4 w (mkTh (add_pod p) 0 None) in finished t' = true /\ RefP w'.
+Proof. exact add_pod_ref. Qed.
+Print Assumptions C22_isolation_add_pod.
+
+Theorem C22_isolation_remove_pod : forall w p, RefP w -> held w = nil ->
+  let '(w', t') := run1 8 w (mkTh (remove_pod p) 0 None) in finished t' = true /\ RefP w'.
+Proof. exact remove_pod_ref. Qed.
+Print Assumptions C22_isolation_remove_pod.
+
+Theorem C22_single_fault_add_node : forall w n p fl, RefP w ->
+  let '(w', t') := run1 8 w (mkTh (add_node n p) 0 fl) in
+  finished t' = true /\ (RefP w' \/ exists j, fl = Some j /\ (j = 2 \/ j = 3)%nat).
+Proof. exact add_node_ref. Qed.
+Print Assumptions C22_single_fault_add_node.
+
+Theorem C22_single_fault_remove_node : forall w n fl, RefP w -> held w = nil ->
+  let '(w', t') := run1 10 w (mkTh (remove_node n) 0 fl) in
+  finished t' = true /\ (RefP w' \/ fl = Some 3%nat).
+Proof. exact remove_node_ref. Qed.
+Print Assumptions C22_single_fault_remove_node.
